@@ -147,6 +147,12 @@ class CircuitGraphBranch(GraphBranch[OperationGraphNode]):
 
         # Node has relation and is present in graph, append to this (reference) node in graph
         relation_node: Optional[OperationGraphNode] = graph.get_corresponding_node(operation=node.operation.relation_link.reference_node)
+        # Node relates to a group of (leaf) operations, append to the last of them in relation steps.
+        # Keeps repeated copies listed one after another, the start time still follows the latest of the group.
+        if isinstance(node.operation.relation_link, MultiRelationLink):
+            for group_node in graph.get_node_iterator():
+                if any(group_node.operation is reference for reference in node.operation.relation_link._reference_nodes):
+                    relation_node = group_node
         relation_node_present: bool = relation_node is not None
         if has_relation and relation_node_present:
             graph.append_pointer_to(relation_node, node)
